@@ -1,1 +1,35 @@
-int selftest_more() { return 0; }
+#include "ref_argon2.hpp"
+#include "ref_randomx.hpp"
+#include <thread>
+#include <cstdio>
+#include <cstring>
+#include <string>
+static std::string hx(const uint8_t* p, size_t n) { static const char* d = "0123456789abcdef"; std::string s; for (size_t i = 0; i < n; ++i) { s += d[p[i] >> 4]; s += d[p[i] & 15]; } return s; }
+int selftest_more() {
+	int fails = 0;
+	// RFC 9106 section 5.1: Argon2d test vector (m=32 KiB, t=3, p=4, tag 32 bytes, password 32x01, salt 16x02, secret 8x03, ad 12x04)
+	ref::Argon2Params p; p.password.assign(32, 1); p.salt.assign(16, 2); p.secret.assign(8, 3); p.ad.assign(12, 4);
+	p.lanes = 4; p.tagLength = 32; p.memoryKiB = 32; p.passes = 3;
+	std::vector<uint8_t> mem; ref::argon2dFill(p, mem);
+	auto tag = ref::argon2Finalize(p, mem);
+	std::string t = hx(tag.data(), tag.size());
+	if (t != "512b391b6f1162975371d30919734294f868e3be3984f3c1a13a4db9fabe4acb") { printf("SELFTEST-FAIL argon2d RFC 9106 vector: got %s\n", t.c_str()); ++fails; }
+	// the 10 published digests of RandomX (5 inputs x v1/v2), see tests.cpp "Hash test 1a-1e"
+	struct V { const char* key; std::string input; const char* v1; const char* v2; };
+	auto unhex = [](const char* h) { std::string o; for (size_t i = 0; h[i] && h[i + 1]; i += 2) { unsigned x; sscanf(h + i, "%2x", &x); o.push_back((char)x); } return o; };
+	std::vector<V> vs = {
+		{"test key 000", "This is a test", "639183aae1bf4c9a35884cb46b09cad9175f04efd7684e7262a0ac1c2f0b4e3f", "22ec6b861b3eb23686b2efbad69513c967ecfce80983df66c9c5b4fbfb4cdb6f"},
+		{"test key 000", "Lorem ipsum dolor sit amet", "300a0adb47603dedb42228ccb2b211104f4da45af709cd7547cd049e9489c969", "9e2c772c12fd48f93c14c97fdc89d556264d9100597023f44d9163e279012ecf"},
+		{"test key 000", "sed do eiusmod tempor incididunt ut labore et dolore magna aliqua", "c36d4ed4191e617309867ed66a443be4075014e2b061bcdaf9ce7b721d2b77a8", "4d6b063a1a603751d525f18a171336a4002f2f06df6c17e4b25fe17e17796e42"},
+		{"test key 001", "sed do eiusmod tempor incididunt ut labore et dolore magna aliqua", "e9ff4503201c0c2cca26d285c93ae883f9b1d30c9eb240b820756f2d5a7905fc", "97024134686ce27d362ea8d86d8ef16483ac272abdabd46ef13359400777fe5e"},
+		{"test key 001", unhex("0b0b98bea7e805e0010a2126d287a2a0cc833d312cb786385a7c2f9de69d25537f584a9bc9977b00000000666fd8753bf61a8631f12984e3fd44f4014eca629276817b56f32e9b68bd82f416"), "c56414121acda1713c2f2a819d8ae38aed7c80c35c2a769298d34f03833cd5f1", "c8e92c5f7c1946fecf06bc382b92e3111da38ee3e6a5ad90704e1a9d8aaf6e76"}};
+	ref::RxCache c0 = ref::buildCache("test key 000", 12), c1 = ref::buildCache("test key 001", 12);
+	std::vector<std::thread> th; std::vector<int> bad(vs.size() * 2, 0);
+	for (size_t i = 0; i < vs.size(); ++i) for (int v = 1; v <= 2; ++v) th.emplace_back([&, i, v] {
+		uint8_t out[32]; ref::randomxHash(std::string(vs[i].key) == "test key 000" ? c0 : c1, vs[i].input.data(), vs[i].input.size(), v, out);
+		if (hx(out, 32) != (v == 1 ? vs[i].v1 : vs[i].v2)) bad[2 * i + v - 1] = 1;
+	});
+	for (auto& t : th) t.join();
+	for (size_t i = 0; i < bad.size(); ++i) if (bad[i]) { printf("SELFTEST-FAIL published RandomX digest %zu v%zu\n", i / 2, i % 2 + 1); ++fails; }
+	return fails;
+}
